@@ -19,7 +19,7 @@ import (
 )
 
 // Parameter types of the recording handlers (names shared with the Lean driver).
-var ptypes = []string{"any", "raw", "int", "str", "bool", "ptrInt", "ints", "vstruct", "bounds"}
+var ptypes = []string{"any", "raw", "int", "str", "bool", "ptrInt", "ints", "vstruct", "bounds", "vslice", "vmap"}
 
 type vstruct struct {
 	A int `validate:"min=1"`
@@ -47,6 +47,8 @@ var (
 		"ints":    reflect.TypeOf([]int(nil)),
 		"vstruct": reflect.TypeOf(vstruct{}),
 		"bounds":  reflect.TypeOf(bounds{}),
+		"vslice":  reflect.TypeOf([]vstruct(nil)),
+		"vmap":    reflect.TypeOf(map[string]*vstruct(nil)),
 	}
 )
 
@@ -265,6 +267,7 @@ func fixedWorld(batchDisabled bool, pool int) WorldSpec {
 		{Name: "vs", Beh: "echo", Params: []ParamSpec{P("param", false, "vstruct")}},
 		{Name: "bnd", Beh: "echo", Ctx: true, Params: []ParamSpec{P("bounds", false, "bounds"), P("tag", true, "raw")}},
 		{Name: "list", Beh: "echo", Params: []ParamSpec{P("xs", false, "ints"), P("raw", true, "raw")}},
+		{Name: "vsl", Beh: "echo", Ctx: true, Params: []ParamSpec{P("items", false, "vslice"), P("byname", true, "vmap")}},
 		{Name: "fail", Beh: "fail", Params: []ParamSpec{P("data", true, "raw")}},
 		{Name: "internal", Beh: "internal", Hdr: true},
 		{Name: "nilres", Beh: "nilres", Params: []ParamSpec{P("x", true, "int")}},
